@@ -128,3 +128,17 @@ package phantoms
 //@   atcall selectIPAddr before: snap choseAddr := true
 //@   ensures @C01: result1 == nil ==> defined(choseAddr)
 //@   dynamiccalls assigns memory
+
+// ---------------- C14 (legacy clients): the weighted group choice depends on its inputs alone ----------------
+// "The result depends on those inputs alone: repeating a selection, or running many selections concurrently, never
+// changes any result": the legacy chooser must not read or write process-wide state - in particular not the global
+// math/rand source, which every goroutine of the station shares (frame: nothing but new objects is written, and the
+// ghost state globalRand() of math/rand is not in the frame).
+//@ func (sc *SubnetConfig) getSubnetsVarint(seed []byte, weighted bool) ([]*phantomNet, error)
+//@   requires sc != nil
+//@   ensures @C14 @C01: true
+//@   assigns nothing
+//@ loop 1:
+//@   invariant sc != nil && fresh(choices)
+//@ loop 2:
+//@   invariant sc != nil && (cap(out) == 0 || fresh(out))
